@@ -6,13 +6,16 @@ import re
 from vlib import sched
 
 TRUSTED = ["Lean 4.33 kernel", "axioms: propext, Classical.choice, Quot.sound at most (audited per theorem)",
-           "hand-written LTS Dsh/Fan.lean tied to dsh.c by trace acceptance (same `step` in theorems and acceptor)",
+           "hand-written LTS Dsh/FanG.lean (Dsh/Fan.lean with the signalling discipline left open) tied to dsh.c by "
+           "trace acceptance (same `step` in theorems and acceptor)",
            "harness/sched/* (scheduler, wrappers, stub transport below the real rcmd.c), vlib/sched.py, gcc, ASan/UBSan"]
 
 
 def assumptions(variant):
-    return ["POSIX semantics of pthread_mutex_lock/unlock and pthread_cond_wait/signal as modelled (wait releases "
-            "and parks; wake-up on signal or spuriously; re-acquire; a signal without waiter is lost)",
+    return ["POSIX semantics of pthread_mutex_lock/unlock and pthread_cond_wait/signal/broadcast as modelled (wait "
+            "releases and parks; wake-up on signal or spuriously; re-acquire; a signal without waiter is lost; the "
+            "dispatcher is the only waiter on threadcount_cond, so signal and broadcast are the same transition -- a "
+            "wait by any other thread is rejected by the acceptor)",
             "code between two wrapped calls of one thread is atomic w.r.t. the protocol (it touches only data "
             "protected by the mutex held, or thread-local data)",
             "fanout >= 1 (fanout 0 is C18's concern); pthread_create succeeds; every worker's command ends",
@@ -81,6 +84,66 @@ def corpus_cases():
     ]
 
 
+def pinned_cases():
+    """Scenarios every run executes whatever the seed (fixed seeds and strategies):
+    (a) descriptor numbers 0, 1, 2 handed to connections (pdsh started with stdin / stdin+stdout / all of stdio
+        closed), dsh and pdcp personality, with output to relay;
+    (b) timed scenarios: every kind of host that holds its slot longer than its streams say (hangs after the
+        connect, keeps talking, outlives its streams, ignores / is slow to obey SIGTERM, hangs in connect) FIRST and
+        LAST among healthy hosts, N = 3 > fanout = 1 and 2, two timeout settings;
+    (c) ^C then ^Z delivered at EVERY step 0..47 of a two- and a three-target run, at the granularities at which a
+        freshly created worker has not yet looked at its slot."""
+    from vlib import timedcheck as T
+    out = []
+    for low in (1, 3, 7):
+        for pers in ("dsh", "pcp"):
+            for f in (1, 2):
+                hosts = [{"name": "p%d" % i, "out": [[0, ("l%d\n" % i).encode().hex()]]} if pers == "dsh" else
+                         {"name": "p%d" % i} for i in range(3)]
+                out.append({"fanout": f, "hosts": hosts, "seed": 9000 + len(out), "budget": 6000,
+                            "yield": "fan", "inline": 1, "strategy": ["uniform", "starveD", "eagerD"][len(out) % 3],
+                            "opts": {"labels": 1, "sopt": len(out) % 2, "lowfds": low, "pers": pers}})
+    for ct, ut in ((2, 1), (1, 2)):
+        A = T.alphabet(ct, ut)
+        for k in ("hang-after", "chatty", "chatty-odd", "outlives", "stubborn", "lingers", "cmd-far", "cmd-over",
+                  "hang-connect", "refuse", "close-out-early"):
+            for f in (1, 2):
+                for vec in ([k, "ok", "ok2"], ["ok", "ok2", k], [k, k, "ok"]):
+                    c = T.mk_case([A[x] for x in vec], f, ct, ut, len(out) % 2 == 0, 9000 + len(out),
+                                  strategy=["uniform", "starveD", "eagerD"][len(out) % 3])
+                    c["timed"] = True
+                    if not T.excluded(c):
+                        out.append(c)
+    for n, f in ((2, 1), (3, 2)):
+        for k in range(0, 48):
+            for yl in ("fan,time", "all"):
+                out.append({"fanout": f, "hosts": [{"name": "g%d" % i, "out": [[0, ("l%d\n" % i).encode().hex()]]}
+                                                   for i in range(n)],
+                            "seed": 9000 + len(out), "budget": 9000, "yield": yl, "inline": 0,
+                            "strategy": ["uniform", "eagerD", "starveD"][k % 3],
+                            "signals": [[k, 2], [k + 1 + k % 3, 20]], "signals_case": True})
+    # (d) resource limits x fanout: the descriptor limit of the process must not change what the fanout means
+    for nofile in (30, 32, 33, 40, 64):
+        for f in (1, 2):
+            out.append({"fanout": f, "hosts": [{"name": "r%d" % i, "out": [[0, ("l%d\n" % i).encode().hex()]]}
+                                               for i in range(3)],
+                        "seed": 9000 + len(out), "budget": 6000, "yield": "fan", "inline": 1,
+                        "strategy": ["uniform", "starveD", "eagerD"][len(out) % 3],
+                        "opts": {"labels": 1, "sopt": 0, "nofile": nofile}})
+    # (e) pthread_create fails once (EAGAIN) for the worker of target i, while others run or not: pdsh may give up
+    #     (exit non-zero, as it does) or try again -- but it must not go on WITHOUT that target, nor hang
+    for i in range(3):
+        for f in (1, 2, 3):
+            out.append({"fanout": f, "hosts": [{"name": "k%d" % j, "out": [[0, ("l%d\n" % j).encode().hex()]]}
+                                               for j in range(3)],
+                        "seed": 9000 + len(out), "budget": 6000, "yield": "fan", "inline": 0,
+                        "strategy": ["uniform", "starveD", "eagerD"][len(out) % 3],
+                        "opts": {"labels": 1, "sopt": 0, "createfail": i}, "createfail_case": True})
+    for c in out:
+        c["pinned"] = True
+    return out
+
+
 def replay_case(ctx, prop, exe, variant):
     rp = json.load(open(ctx.replay))
     case = (rp.get("case") or {}).get("case") or rp.get("case")
@@ -97,17 +160,19 @@ def replay_case(ctx, prop, exe, variant):
     if not isinstance(case, dict) or "hosts" not in case:
         ctx.log("replay: the file names no schedule; re-run the tier instead")
         return None
-    mem = "mem" in case.get("yield", "")
-    if mem and getattr(ctx, "exe_mem", None):
+    mem = "mem" in case.get("yield", "") or bool(case.get("createfail_case"))
+    if "mem" in case.get("yield", "") and getattr(ctx, "exe_mem", None):
         exe = ctx.exe_mem                   # recorded at memory-access granularity
     res = sched.run_case(exe, case, ctx.scratch)
     if mem:
         res["bug"] = res["bug"] or None
-    bad = None if mem else sched.accept_all(ctx, [sched.project_fan(res, variant)])[0] if res["crash"] is None and not res["bug"] else None
+    bad = None if mem else sched.accept_all(ctx, [sched.project_fan(res, variant, relay=sched.relay_capable(case))])[0] \
+        if res["crash"] is None and not res["bug"] else None
     if bad is not None:
         ctx.disagreement("Fan LTS (%s variant) vs dsh.c" % variant,
                          "projected trace line %d `%s`: %s" % (bad[0], bad[1], bad[2]), pack(res))
-    offs = [o for o in sched.offenders(res) if o[0] in (prop, "*")]
+    offs = [o for o in sched.offenders(res) if o[0] in (prop, "*") and
+            not (case.get("createfail_case") and o[1].startswith("exit:") and o[1] != "exit:0")]
     ctx.log("replay: monitors %s" % (res["M"],))
     for p, sig, what in offs:
         ctx.log("replay: %s %s" % (sig, what))
@@ -157,7 +222,8 @@ def run(ctx, prop, PROPS, LEVEL):
                    "hang, no early return, no excess (monitors only).  C04 also runs the scratch-built pdsh -R exec -u 1 "
                    "with commands that count their live siblings (real part).  Distinct = distinct projected event "
                    "trace; non-trivial = N>=2 and the dispatcher waited at least once"}
-    dist = {"strategy": {}, "yield": {}, "with_spurious": 0, "N": {}, "dfs": [], "status": {}, "rejects": 0}
+    dist = {"strategy": {}, "yield": {}, "with_spurious": 0, "N": {}, "dfs": [], "status": {}, "rejects": 0,
+            "signalling_discipline_observed": {}}
     cov["distribution"] = dist
     variant = None
     if exe_san and exe:
@@ -183,6 +249,7 @@ def explore_all(ctx, prop, exe_san, exe, variant, cov, dist):
     pending = []          # offenders, reported smallest first so that the replay is a small one
 
     newcount, known_kept, known_total = [0], {}, {}
+    sites_seen = set()
 
     def is_known(sig):
         return any(f["property"] == ctx.prop and f.get("status") == "open" and re.fullmatch(f["signature"], sig)
@@ -192,9 +259,13 @@ def explore_all(ctx, prop, exe_san, exe, variant, cov, dist):
         """monitors + acceptor for a list of runs"""
         # runs at memory-access granularity are judged by the monitors only: the LTS attributes the code between
         # two calls to the earlier call, which is exactly what those runs do not do
-        batches = [sched.project_fan(r, variant) if r["crash"] is None and not r["bug"] and
-                   "mem" not in r["case"].get("yield", "") and not r["case"].get("signals_case") else None
+        batches = [sched.project_fan(r, variant, relay=sched.relay_capable(r["case"]))
+                   if r["crash"] is None and not r["bug"] and
+                   "mem" not in r["case"].get("yield", "") and not r["case"].get("signals_case") and
+                   not r["case"].get("createfail_case") else None
                    for r in results]
+        dist["through_composed_acceptor"] = dist.get("through_composed_acceptor", 0) + \
+            sum(1 for b in batches if b is not None and b[0].startswith("initr"))
         idx = [i for i, b in enumerate(batches) if b is not None]
         verdicts = sched.accept_all(ctx, [batches[i] for i in idx]) if idx else []
         for i, bad in zip(idx, verdicts):
@@ -205,10 +276,15 @@ def explore_all(ctx, prop, exe_san, exe, variant, cov, dist):
                     ctx.disagreement("Fan LTS (%s variant) vs dsh.c" % variant,
                                      "projected trace line %d `%s`: %s" % (bad[0], bad[1], bad[2]), pack(r))
         for r, b in zip(results, batches):
+            if r.get("exe") == os.path.basename(exe):
+                sites_seen.update(r.get("sites") or [])
             cov["evaluations"] += 1
             m = r["M"] or {}
             st = m.get("status", "crash")
             dist["status"][st] = dist["status"].get(st, 0) + 1
+            for call, place in sched.discipline(r):
+                k = "%s %s the critical section" % (call, place)
+                dist["signalling_discipline_observed"][k] = dist["signalling_discipline_observed"].get(k, 0) + 1
             # connections that were handed descriptor number 0, 1 or 2 (pdsh started with stdio closed)
             dist["connections_on_low_descriptors"] = dist.get("connections_on_low_descriptors", 0) + \
                 sum(1 for _, ev in r["steps"] if len(ev) > 1 and ev[1] == "connectEnd" and ev[-1] == "lowfd") + \
@@ -225,6 +301,8 @@ def explore_all(ctx, prop, exe_san, exe, variant, cov, dist):
                     continue              # a host given up on has, by design, not been relayed completely
                 if r["case"].get("signals_case") and sig in ("not-started", "output-not-delivered", "parked-with-room"):
                     continue              # the user cancelled the pending targets
+                if r["case"].get("createfail_case") and sig.startswith("exit:") and sig != "exit:0":
+                    continue              # thread creation failed: giving up with an error is legitimate
                 if p in (prop, "*"):
                     if not is_known(sig):
                         newcount[0] += 1
@@ -239,8 +317,15 @@ def explore_all(ctx, prop, exe_san, exe, variant, cov, dist):
         """enough offending runs that no open finding explains => stop exploring, report"""
         return newcount[0] >= 30 or dist["rejects"] >= 200
 
-    # 1. corpus, then exhaustive exploration of tiny configurations (gives the smallest failing schedules)
+    # 1. corpus and pinned scenarios, then exhaustive exploration of tiny configurations (gives the smallest failing
+    #    schedules)
     consume(sched.run_many(exe_san, corpus_cases(), ctx.scratch))
+    pinned = pinned_cases()
+    dist["pinned"] = len(pinned)
+    consume(sched.run_many(exe_san, pinned[::3], ctx.scratch) +
+            sched.run_many(exe, [c for j, c in enumerate(pinned) if j % 3], ctx.scratch))
+    ctx.log("pinned scenarios (descriptors 0-2, slot-holding hosts first / last in the window, ^C^Z at every step): "
+            "%d runs" % len(pinned))
     if ctx.quick():
         configs = [(1, 1, 2), (2, 1, 2), (2, 2, 1), (3, 2, 0)]
     else:
@@ -341,7 +426,7 @@ def explore_all(ctx, prop, exe_san, exe, variant, cov, dist):
         ctx.log("^C^Z injected at random points: %d runs" % len(scases))
 
     # 2. random schedules
-    nrand = 3000 if ctx.quick() else 40000
+    nrand = 2400 if ctx.quick() else 40000
     nmax = 8 if ctx.quick() else 40
     cases = []
     for _ in range(nrand):
@@ -365,6 +450,9 @@ def explore_all(ctx, prop, exe_san, exe, variant, cov, dist):
         if (i // CH) % 5 == 4 or i + CH >= len(cases):
             ctx.log("random schedules: %d/%d" % (min(i + CH, len(cases)), len(cases)))
 
+    # every call site of the protocol operations that exists in dsh.c must have been reached by some run
+    if newcount[0] == 0 and not ctx.broken:
+        cov["call_sites_of_dsh_c"] = sched.site_report(ctx, exe, sites_seen, "this check (plain build)")
     pending.sort(key=lambda t: t[0])
     seen = {}
     for _, sig, what, r in pending:
